@@ -197,6 +197,16 @@ func (ps pkgSpec) render(eff []Plugin) (src string, names []string, why string) 
 	for _, u := range userIdents {
 		user[u] = true
 	}
+	// the theorem's hypothesis res_ok: no identifier of the user's package may carry a plugin prefix under
+	// this map (a helper minted as prefix / prefix_… could coincide with it — in the default-named package
+	// the same happens with a user identifier called deriveEqual_, so this is not about prefixes)
+	for _, p := range eff {
+		for u := range user {
+			if p.Prefix != "" && strings.HasPrefix(u, p.Prefix) {
+				return "", nil, "user identifier " + u + " carries the prefix of " + p.Name
+			}
+		}
+	}
 	seen := map[string]bool{}
 	var b strings.Builder
 	b.WriteString("package p\n\n")
